@@ -1,37 +1,73 @@
-//! probe (to be replaced)
+//! C06 — server: subscription bookkeeping is exact and respects the per-connection cap.
+//!
+//! Drives the real per-connection machinery (see `subs_env`): every case is a scripted history of
+//! subscribe / accept / reject / drop-pending / send / sink clone+drop / handler return /
+//! unsubscribe (own, foreign connection, foreign method, stale, unknown) / connection drop /
+//! server stop over 1..3 connections and caps 0..3.  Oracle (independent of the Lean model): the
+//! truth table of every unsubscribe answer and of every `is_closed`/`send` result recomputed from
+//! the script, cap never exceeded, refusal exactly at the cap (so k ended subscriptions make room
+//! for exactly k new ones — the tail of every case fills each connection up to its cap again).
+use jrpc_harness::common::*;
 use jrpc_harness::subs_env::*;
 
 fn main() {
-	let rt = tokio::runtime::Builder::new_current_thread().enable_all().start_paused(true).build().unwrap();
-	rt.block_on(async {
-		let mut env = Env::new(true, 2, 1, 1024).await;
-		env.request(0, sub_request(0, 7)).await.unwrap();
-		barrier().await;
-		let hs: Vec<Handover> = env.shared.handovers.lock().unwrap().drain(..).collect();
-		println!("handovers {}", hs.len());
-		let mut subs: Vec<SubCtl> = hs.into_iter().map(SubCtl::from_handover).collect();
-		println!("conn {} sid {}", subs[0].conn, subs[0].sid);
-		env.request(0, sub_request(1, 8)).await.unwrap();
-		barrier().await;
-		println!("frames {:?}", env.take_frames(0).iter().map(|f| canon_frame(f)).collect::<Vec<_>>());
-		let p = subs[0].pending.take().unwrap();
-		let r = run_step(async move { p.accept().await }).await;
-		let sink = r.unwrap().unwrap();
-		println!("frames {:?}", env.take_frames(0));
-		let s2 = sink.clone();
-		let r = run_step(async move { let r = s2.send(data_msg(5)).await.is_ok(); (r, s2) }).await.unwrap();
-		println!("send {:?} frames {:?}", r.0, env.take_frames(0));
-		drop(r.1);
-		barrier().await;
-		println!("after clone drop: closed={}", sink.is_closed());
-		env.request(0, unsub_request(0, 9, 1)).await.unwrap();
-		barrier().await;
-		println!("frames {:?}", env.take_frames(0));
-		let _ = subs[0].ret_tx.take().unwrap().send(Ret::Err(3));
-		barrier().await;
-		println!("frames {:?} gone={}", env.take_frames(0), subs[0].handler_gone());
-		env.stop();
-		barrier().await;
-		println!("closed0={} closed1={} sinkclosed={}", env.closed(0), env.closed(1), sink.is_closed());
-	});
+	let a = args();
+	let mut out = Out::new();
+	let pf = Profile { check_c06: true, check_c04: false, w_accept: 6, w_send: 3, w_ret: 2, w_wstep: 5, w_burst: 1, tail: true };
+	if let Some(r) = &a.replay {
+		for case in split_cases(read_case_lines(r)) {
+			run_fixed(&mut out, &case, &pf);
+		}
+	} else {
+		for case in split_cases(corpus_lines("C06")) {
+			run_fixed(&mut out, &case, &pf);
+			out.count("corpus.cases");
+		}
+		let thorough = a.tier == "thorough";
+		let n = a.cases.unwrap_or(if thorough { 10000 } else { 800 });
+		let mut rng = Rng::new(a.seed);
+		let mut caseno = 0u64;
+		let mut bases: Vec<Vec<String>> = vec![];
+		for i in 0..n {
+			caseno += 1;
+			let nconns = match rng.below(10) {
+				0..=3 => 1,
+				4..=8 => 2,
+				_ => 3,
+			};
+			let cap = rng.below(4) as u32;
+			let nops = rng.range(8, 40);
+			// one case in six on the harness-owned bounded queue
+			let eager = !rng.chance(1, 6);
+			let qcap = if eager { 1024 } else { rng.range(1, 4) as u32 };
+			let lines = run_generated(&mut out, &mut rng, caseno, eager, nconns, cap, qcap, nops, &pf);
+			if eager && bases.len() < (if thorough { 60 } else { 6 }) && i % 3 == 0 {
+				bases.push(lines);
+			}
+		}
+		// connection drop / stop injected at every position of base scripts
+		for base in &bases {
+			for pos in 1..base.len() {
+				for fault in ["ss connclose 0 abrupt", "ss connclose 0 graceful", "ss stop"] {
+					if fault == "ss stop" && pos % 2 == 0 {
+						continue;
+					}
+					caseno += 1;
+					let mut v = base.clone();
+					let hdr: Vec<&str> = base[0].split_whitespace().collect();
+					v[0] = format!("case {caseno} {}", hdr[2..].join(" "));
+					v.insert(pos, fault.to_string());
+					run_fixed(&mut out, &v, &pf);
+					out.count("fault-injection.variants");
+				}
+			}
+		}
+		exhaustive(&mut out, if thorough { 6 } else { 5 }, &mut caseno, &pf);
+	}
+	out.write(&a.out);
+	if a.replay.is_some() {
+		for i in 0..out.ops.len() {
+			println!("op:     {}\nimpl:   {}\noracle: {}", out.ops[i], out.impl_[i], out.oracle[i]);
+		}
+	}
 }
